@@ -37,9 +37,9 @@ def main():
     items = []
     for tid, rty, tmpl in templates():
         for bl in (2, 3, 4):
-            items.append(dict(tid=tid, bl=bl, n=(500 if tier == "quick" else 4000), exhaustive=tier != "quick"))
+            items.append(dict(tid=tid, bl=bl, n=(500 if tier == "quick" else 12000), exhaustive=tier != "quick"))
         for bl in (6, 8, 16, 32):
-            items.append(dict(tid=tid, bl=bl, n=(150 if tier == "quick" else 1500), exhaustive=False))
+            items.append(dict(tid=tid, bl=bl, n=(150 if tier == "quick" else 4000), exhaustive=False))
     common.rng(PROP, "plan").shuffle(items)
     nshards = 16 if tier == "quick" else 32
     jobs = [dict(kind="ops", seed="%d/%s/%d" % (common.seed(), PROP, s), items=items[s::nshards]) for s in range(nshards)]
